@@ -43,7 +43,7 @@ pub fn validate(ctx: &mut Ctx, buf: &[u8], creds: &RefCreds) -> Val {
 }
 
 /// An untampered message under the key it was sealed with (or any key): consistency with the
-/// reference.  Returns the end offset of the attribute whose algorithm was reported.
+/// reference.  Returns the end offset of the last exposed integrity attribute (the tamper range).
 pub fn check_genuine(ctx: &mut Ctx, buf: &[u8], creds: &RefCreds, what: &str) -> Option<usize> {
     ctx.eval();
     let rp = ref_parse(buf);
@@ -78,7 +78,25 @@ pub fn check_genuine(ctx: &mut Ctx, buf: &[u8], creds: &RefCreds, what: &str) ->
                 );
                 return None;
             }
-            rp.attrs.iter().find(|a| a.ty == *ty).map(|a| a.off + 4 + a.len)
+            // tamper clause: the last exposed integrity attribute (the authoritative one when both
+            // are present) must itself be correct for validation to succeed
+            let last = last_exposed_integrity(&rp.attrs);
+            if let Some(li) = last {
+                if ri.correct_at(li) == Some(false) {
+                    ctx.violation(
+                        "C04",
+                        "tampered-final-integrity-validates",
+                        "Message::validate_integrity",
+                        &format!("tail={shape}"),
+                        w,
+                        format!("Err: the last exposed integrity attribute (index {li}) is not correct for these credentials; reference: {:?}", ri.attrs),
+                        format!("Ok({ty:#06x})"),
+                    );
+                    return None;
+                }
+            }
+            // the tamper range ends with the last exposed integrity attribute
+            last.map(|li| rp.attrs[li].off + 4 + rp.attrs[li].len)
         }
         Val::Err(e) => {
             ctx.count("validate-err");
@@ -221,6 +239,24 @@ pub fn run(ctx: &mut Ctx) {
                 );
             }
             ctx.count("builder-sealed");
+            // the same builder serialised into a reused (not zeroed) buffer is still a message sealed with K
+            if tries % 8 == 0 {
+                if let Some(d) = build_program_dirty(&p, 0xA5, tries % 16 == 0) {
+                    ctx.count("builder-sealed-dirty-destination");
+                    match validate(ctx, &d, &p.creds) {
+                        Val::Ok(_) => {}
+                        other => ctx.violation(
+                            "C04",
+                            "sealed-validates",
+                            "MessageBuilder::write_into",
+                            "dirty-destination",
+                            || p.to_json(),
+                            "Ok: sealed with these credentials".into(),
+                            format!("{other:?}"),
+                        ),
+                    }
+                }
+            }
             (b, p.creds.clone())
         } else {
             let tid = gen_tid(&mut rng);
